@@ -376,6 +376,28 @@ Definition set_tstring (m : model) : model :=
   | x => x
   end.
 
+(* the debugging = of a replacement field: the text kept for it, and the rest *)
+Definition take_dbg (before : text) (s3 : text) : option text * text :=
+  match s3 with
+  | e :: t => if N.eqb e c_eq
+              then let '(sp3, t') := span is_ws t in (Some (before ++ [c_eq] ++ sp3), t')
+              else (None, s3)
+  | [] => (None, s3)
+  end.
+
+(* the conversion of a replacement field.  A bang at the very end of input makes conversion empty,
+   and the field then fails for want of a closing brace. *)
+Definition take_conv (s4 : text) : option N * text :=
+  match s4 with
+  | b :: t => if N.eqb b c_bang
+              then match t with
+                   | cv :: t' => (Some cv, t')
+                   | [] => (None, t)
+                   end
+              else (None, s4)
+  | [] => (None, s4)
+  end.
+
 (* The bodies of the reader's methods, with the recursive calls abstracted as [rec]. *)
 Section Bodies.
 Variable rec : mode -> text -> res.
@@ -558,23 +580,8 @@ Definition fcomp_body (raw ts : bool) (s : text) : res :=
   | ROne m s2 =>
       let form_text := firstn (length s1 - length s2) s1 in
       let '(sp2, s3) := span is_ws s2 in
-      let '(dbg, s4) := match s3 with
-                        | e :: t => if N.eqb e c_eq
-                                    then let '(sp3, t') := span is_ws t in
-                                         (Some (sp1 ++ form_text ++ sp2 ++ [c_eq] ++ sp3), t')
-                                    else (None, s3)
-                        | [] => (None, s3)
-                        end in
-      (* a bang at the very end of input makes conversion empty, and the field then fails below *)
-      let '(conv, s5) := match s4 with
-                         | b :: t => if N.eqb b c_bang
-                                     then match t with
-                                          | cv :: t' => (Some cv, t')
-                                          | [] => (None, t)
-                                          end
-                                     else (None, s4)
-                         | [] => (None, s4)
-                         end in
+      let '(dbg, s4) := take_dbg (sp1 ++ form_text ++ sp2) s3 in
+      let '(conv, s5) := take_conv s4 in
       let s6 := skip_ws s5 in
       let pre := match dbg with Some d => [MStr d None] | None => [] end in
       match s6 with
